@@ -3,7 +3,7 @@
 id=$1; tier=${2:-quick}; prop=${id%%-*}
 cd /repo && git diff --quiet || { echo "/repo not clean"; exit 2; }
 git -C /repo apply /verif/seeded/$id/patch.diff || { echo "patch does not apply"; exit 2; }
-cd /verif; ./check $prop $tier > /tmp/try-$id.out 2>&1; rc=$?
+cd /verif; cp evidence/$prop.json /tmp/evidence-$prop.bak 2>/dev/null; ./check $prop $tier > /tmp/try-$id.out 2>&1; rc=$?; cp /tmp/evidence-$prop.bak evidence/$prop.json 2>/dev/null
 git -C /repo checkout -- .
 grep -E "^VIOLATION|^  sig=|^C[0-9]+ " /tmp/try-$id.out | cut -c1-300 | head -8
 echo "== $id tier=$tier check exit=$rc" | tee -a /verif/seeded/$id/detect.log; grep -m2 -E "^  sig=" /tmp/try-$id.out | cut -c1-200 >> /verif/seeded/$id/detect.log
